@@ -236,6 +236,7 @@ func checkC09(c *Ctx) {
 		files map[string]string
 		steps []proto.Step
 		nq    int
+		dev   string // known finding that explains run-to-run variation of this workspace ("" = none allowed)
 	}
 	var bws []bw
 	if files, err := cfgWorkspace(c.Root); err == nil {
@@ -247,7 +248,7 @@ func checkC09(c *Ctx) {
 			{M: "textDocument/documentSymbol", P: json.RawMessage(`{"textDocument":{"uri":"file://$ROOT/main.lua"}}`)},
 			{M: "textDocument/completion", P: json.RawMessage(`{"textDocument":{"uri":"file://$ROOT/main.lua"},"position":{"line":10,"character":7},"context":{"triggerKind":1}}`)},
 		}
-		bws = append(bws, bw{"cfgws", files, append(st, q...), len(q)})
+		bws = append(bws, bw{"cfgws", files, append(st, q...), len(q), ""})
 	}
 	// many files, fewer symbols than workspace/symbol's 200-entry cap: the per-file symbol workers run in parallel
 	{
@@ -266,7 +267,66 @@ func checkC09(c *Ctx) {
 			{M: "workspace/symbol", P: json.RawMessage(`{"query":"other_1"}`)},
 			{M: "textDocument/references", P: refParams("mod03.lua", 2, 2)},
 		}
-		bws = append(bws, bw{"symbols24", files, append([]proto.Step{openStep("mod03.lua", files["mod03.lua"])}, q...), len(q)})
+		bws = append(bws, bw{"symbols24", files, append([]proto.Step{openStep("mod03.lua", files["mod03.lua"])}, q...), len(q), ""})
+	}
+	// a table and a class with more members than the hover preview shows: which ones are shown must not depend on map order
+	{
+		var sb strings.Builder
+		sb.WriteString("local big = {\n")
+		for i := 0; i < 45; i++ {
+			fmt.Fprintf(&sb, "  field_%02d = %d,\n", (i*7)%45, i)
+		}
+		sb.WriteString("}\n---@class Wide\n")
+		for i := 0; i < 40; i++ {
+			fmt.Fprintf(&sb, "---@field w%02d number\n", (i*11)%40)
+		}
+		sb.WriteString("\n---@type Wide\nlocal wide = {}\nprint(big, wide)\nprint(big.field_03, wide.w07)\n")
+		text := sb.String()
+		nl := strings.Count(text, "\n")
+		files := map[string]string{"big.lua": text}
+		q := []proto.Step{
+			{M: "textDocument/hover", P: posParams("big.lua", nl-2, 6)},
+			{M: "textDocument/hover", P: posParams("big.lua", nl-2, 11)},
+			{M: "textDocument/hover", P: posParams("big.lua", 0, 6)},
+			{M: "textDocument/completion", P: json.RawMessage(fmt.Sprintf(`{"textDocument":{"uri":"file://$ROOT/big.lua"},"position":{"line":%d,"character":10},"context":{"triggerKind":1}}`, nl-1))},
+			{M: "textDocument/documentSymbol", P: json.RawMessage(`{"textDocument":{"uri":"file://$ROOT/big.lua"}}`)},
+		}
+		bws = append(bws, bw{"wide_tables", files, append([]proto.Step{openStep("big.lua", text)}, q...), len(q), ""})
+	}
+	// mirrored directory trees with modules of the same base name: which file a require denotes must not depend on the
+	// order in which the candidates are met
+	{
+		files := map[string]string{
+			"client/ui/main.lua":     "local util = require(\"util\")\nlocal conf = require(\"conf\")\nprint(util.name, conf.name, util.only_client, conf.level)\n",
+			"client/common/util.lua": "local M = { name = \"client-common\", only_client = 1 }\nreturn M\n",
+			"server/ui/util.lua":     "local M = { name = \"server-ui\", only_server = 1 }\nreturn M\n",
+			"server/common/conf.lua": "local C = { name = \"server-common\", level = 2 }\nreturn C\n",
+			"client/net/conf.lua":    "local C = { name = \"client-net\", level = 1 }\nreturn C\n",
+			"server/ui/main.lua":     "local util = require(\"util\")\nlocal conf = require(\"common.conf\")\nprint(util.name, conf.level)\n",
+		}
+		main := "client/ui/main.lua"
+		q := []proto.Step{
+			{M: "textDocument/definition", P: posParams(main, 0, 23)},
+			{M: "textDocument/definition", P: posParams(main, 1, 23)},
+			{M: "textDocument/definition", P: posParams(main, 2, 12)},
+			{M: "textDocument/definition", P: posParams(main, 2, 23)},
+			{M: "textDocument/hover", P: posParams(main, 2, 34)},
+			{M: "textDocument/hover", P: posParams(main, 2, 52)},
+			{M: "textDocument/definition", P: posParams("server/ui/main.lua", 1, 25)},
+		}
+		bws = append(bws, bw{"mirrored_trees", files, append([]proto.Step{openStep(main, files[main]), openStep("server/ui/main.lua", files["server/ui/main.lua"])}, q...), len(q), ""})
+		// two candidates that no rule separates (same score): the known finding Dev_EqualScoreCandidates, here seen as
+		// run-to-run variation
+		files2 := map[string]string{
+			"a/x/same.lua": "return { v = 1 }\n",
+			"b/x/same.lua": "return { v = 2 }\n",
+			"c/y/user.lua": "local s = require(\"x.same\")\nprint(s.v)\n",
+		}
+		q2 := []proto.Step{
+			{M: "textDocument/definition", P: posParams("c/y/user.lua", 0, 20)},
+			{M: "textDocument/definition", P: posParams("c/y/user.lua", 1, 8)},
+		}
+		bws = append(bws, bw{"equal_score_modules", files2, append([]proto.Step{openStep("c/y/user.lua", files2["c/y/user.lua"])}, q2...), len(q2), "Dev_EqualScoreCandidates"})
 	}
 	repoRoot := "/repo"
 	if alt := os.Getenv("VERIF_REPO"); alt != "" {
@@ -313,7 +373,7 @@ func checkC09(c *Ctx) {
 					proto.Step{M: "textDocument/definition", P: posParams(n, 1, 7)})
 				nq += 3
 			}
-			bws = append(bws, bw{"testdata/" + e.Name(), files, st, nq})
+			bws = append(bws, bw{"testdata/" + e.Name(), files, st, nq, ""})
 		}
 	}
 	groupsB := make([][][]*proto.Case, len(pools))
@@ -376,6 +436,10 @@ func checkC09(c *Ctx) {
 		raw, _ := json.Marshal(map[string]interface{}{"fam": "repeat", "workspace": b.name})
 		if surveyMode {
 			sv.add("repeat differs "+b.name, desc)
+			continue
+		}
+		if b.dev != "" {
+			c.Rep.Deviation(b.dev, desc, raw)
 			continue
 		}
 		c.Rep.Violation(raw, desc)
